@@ -80,6 +80,7 @@ type mKey struct {
 	// pinned tree no pass follows (known finding C04:no-wakeup-after-waiter-leaves), so the new head may be
 	// admissible; tolerated only while that finding is listed as known.
 	staleWake bool
+	lastEnd   string // how the most recent hold on this key ended (unlock / expiry)
 }
 
 func (k *mKey) locked() int {
@@ -372,6 +373,7 @@ func (m *aMonitor) onExpried(k *mKey, r *aReq, rp *aReply) {
 		m.viol("C06", "hold (terms of #%d, E=%ds set at t+%d) expired early at t+%d", h.setter, h.eSec, h.termsAt-aEpoch, m.e.now-aEpoch)
 	}
 	k.removeHolder(h)
+	k.lastEnd = "expiry"
 	m.info.holdEndKinds["expiry"] = true
 	if len(k.waiters) > 0 {
 		m.info.waitersHoldEnded++
@@ -581,6 +583,7 @@ func (m *aMonitor) onUnlockReply(k *mKey, r *aReq, rp *aReply) {
 		} else {
 			h.depth = 0
 			k.removeHolder(h)
+			k.lastEnd = "unlock"
 			m.info.holdEndKinds["unlock"] = true
 			if len(k.waiters) > 0 {
 				m.info.waitersHoldEnded++
@@ -659,6 +662,9 @@ func (m *aMonitor) afterOp(op aOp) {
 	snaps := map[string]*aSnapKey{}
 	census := make([]struct{ locked, waits, keys int }, len(e.dbs))
 	for di, d := range e.dbs {
+		if d == nil {
+			continue
+		}
 		for _, s := range aSnapshot(di, d) {
 			snaps[fmt.Sprintf("%d/%x", di, s.Key)] = s
 			census[di].keys++
@@ -769,7 +775,11 @@ func (m *aMonitor) afterOp(op aOp) {
 			if k.staleWake && aKnownNoWake {
 				m.info.staleWakeSkips++
 			} else if (free && !head.wwu) || (!free && !k.termsChanged && m.admissible(k, head.count)) {
-				m.viol("C04", "key %s: queued request #%d (Count %d) is at the head of the queue and admissible (%d holds outstanding) but was not granted", id, head.req.Idx, head.count, k.locked())
+				tags := "C04"
+				if k.lastEnd == "expiry" {
+					tags = "C04,C06" // C06: when a hold expires queued requests are served exactly as after an unlock
+				}
+				m.viol(tags, "key %s: queued request #%d (Count %d) is at the head of the queue and admissible (%d holds outstanding) but was not granted", id, head.req.Idx, head.count, k.locked())
 			}
 		}
 		// C05 / C06 upper bounds
@@ -800,6 +810,9 @@ func (m *aMonitor) afterOp(op aOp) {
 	}
 	// STATE counters vs. census
 	for di, d := range e.dbs {
+		if d == nil {
+			continue
+		}
 		st := d.GetState()
 		if int(st.LockedCount) != census[di].locked {
 			m.viol("C17", "db %d: STATE LockedCount %d, census of outstanding holds %d", di, st.LockedCount, census[di].locked)
@@ -820,6 +833,9 @@ func (m *aMonitor) afterOp(op aOp) {
 
 func (m *aMonitor) scanFreed() {
 	for di, d := range m.e.dbs {
+		if d == nil {
+			continue
+		}
 		if s := aScanFreed(d); s != "" {
 			m.viol("C17", "db %d: %s", di, s)
 		}
@@ -860,6 +876,9 @@ func (m *aMonitor) afterDrain() {
 		}
 	}
 	for di, d := range e.dbs {
+		if d == nil {
+			continue
+		}
 		st := d.GetState()
 		if st.LockedCount != 0 || st.WaitCount != 0 || st.KeyCount != 0 {
 			m.viol("C17", "after the drain db %d reports LockedCount=%d WaitCount=%d KeyCount=%d", di, st.LockedCount, st.WaitCount, st.KeyCount)
@@ -869,6 +888,14 @@ func (m *aMonitor) afterDrain() {
 		}
 	}
 	m.scanFreed()
+	for di, d := range e.dbs {
+		if d == nil {
+			continue
+		}
+		if n := aScanRecycledValues(d); n > 0 {
+			m.viol("C17,C15", "after the drain %d recycled key managers of db %d still carry a value", n, di)
+		}
+	}
 	// every request has exactly one terminal reply
 	for _, r := range e.reqs {
 		if r.Terminal < 0 {
